@@ -125,7 +125,8 @@ pub fn build(
     };
 
     let mut fields: Vec<(String, isize)> = vec![];
-    let mut last_field = 0;
+    // The value of the next case if it is not given explicitly; `None` after `isize::MAX`.
+    let mut last_field = Some(0isize);
     let mut default_index = None;
     for statement in &definition.statements {
         let grammar::EnumStatement {
@@ -138,7 +139,9 @@ pub fn build(
             Some(_) => anyhow::bail!(
                 "unsupported enum value for case `{name}` of enum `{resolvee_path}`: {expr:?}"
             ),
-            None => last_field,
+            None => last_field.with_context(|| {
+                format!("value for case `{name}` of enum `{resolvee_path}` does not fit in an isize")
+            })?,
         };
         // `value as _` in the generated code would silently truncate anything else.
         if (value as i128) < min_value || (value as i128) > max_value {
@@ -160,7 +163,7 @@ pub fn build(
             }
         }
 
-        last_field = value + 1;
+        last_field = value.checked_add(1);
     }
 
     let mut singleton = None;
